@@ -342,3 +342,172 @@ func originAny(v ssa.Value, pred func(ssa.Value) bool) bool {
 	})
 	return found
 }
+
+// ---- R15: no lost update ---------------------------------------------------------------------------------
+//
+// A store `x.f = g(… x.f …)` reads the field it writes. If something that may write x.f (a store, or a call that
+// transitively reaches one) lies on a path between the read and the store, the store overwrites that write with a
+// value computed from the stale read. lostUpdates reports such (load, writer, store) triples in fn.
+
+// mayWriteField: may calling g (transitively, within the repository) store into field f?
+func (e *Engine) mayWriteField(g *ssa.Function, f *types.Var) bool {
+	if e.fieldWriters == nil {
+		e.fieldWriters = map[*types.Var]map[*ssa.Function]int{}
+	}
+	memo := e.fieldWriters[f]
+	if memo == nil {
+		memo = map[*ssa.Function]int{}
+		e.fieldWriters[f] = memo
+	}
+	var rec func(g *ssa.Function) bool
+	rec = func(g *ssa.Function) bool {
+		if v, ok := memo[g]; ok {
+			return v == 2
+		}
+		memo[g] = 1
+		w := false
+		for _, h := range WithAnon(g) {
+			for _, b := range h.Blocks {
+				for _, in := range b.Instrs {
+					switch x := in.(type) {
+					case *ssa.Store:
+						if fieldOfAddr(x.Addr) == f {
+							w = true
+						}
+					case ssa.CallInstruction:
+						for _, c := range e.Callees(x) {
+							if !w && rec(c) {
+								w = true
+							}
+						}
+					}
+				}
+			}
+		}
+		if w {
+			memo[g] = 2
+		}
+		return w
+	}
+	return rec(g)
+}
+
+type lostUpdate struct {
+	Load, Writer ssa.Instruction
+	Store        *ssa.Store
+}
+
+func (e *Engine) lostUpdates(fn *ssa.Function, f *types.Var) (found []lostUpdate, stores int) {
+	fresh := func(v ssa.Value) bool { // an object created in this function
+		switch y := unspill(v).(type) {
+		case *ssa.Alloc:
+			return true
+		case *ssa.Call:
+			_ = y
+			return true
+		}
+		return false
+	}
+	var curBase ssa.Value
+	isWriter := func(in ssa.Instruction) bool {
+		switch x := in.(type) {
+		case *ssa.Store:
+			if fieldOfAddr(x.Addr) != f {
+				return false
+			}
+			// a store into the same field of a provably different object (one of the two was created here, the other was
+			// not, or both were created by different instructions) does not count
+			ob := x.Addr.(*ssa.FieldAddr).X
+			if curBase != nil && !sameObject(ob, curBase) && (fresh(ob) || fresh(curBase)) {
+				return false
+			}
+			return true
+		case ssa.CallInstruction:
+			for _, c := range e.Callees(x) {
+				if e.mayWriteField(c, f) {
+					return true
+				}
+			}
+		}
+		return false
+	}
+	AllInstrs(fn, func(in ssa.Instruction) {
+		st, ok := in.(*ssa.Store)
+		if !ok || fieldOfAddr(st.Addr) != f {
+			return
+		}
+		stores++
+		base := st.Addr.(*ssa.FieldAddr).X
+		curBase = base
+		// loads of the same field of the same object contributing to the stored value
+		var loads []ssa.Instruction
+		seen := map[ssa.Value]bool{}
+		var walk func(v ssa.Value, d int)
+		walk = func(v ssa.Value, d int) {
+			if v == nil || seen[v] || d > 30 {
+				return
+			}
+			seen[v] = true
+			if g, b := loadedField(v); g == f {
+				if sameObject(b, base) {
+					if li, ok := v.(ssa.Instruction); ok {
+						loads = append(loads, li)
+					}
+				}
+				return
+			}
+			switch x := v.(type) {
+			case *ssa.BinOp:
+				walk(x.X, d+1)
+				walk(x.Y, d+1)
+			case *ssa.Phi:
+				for _, ed := range x.Edges {
+					walk(ed, d+1)
+				}
+			case *ssa.Convert:
+				walk(x.X, d+1)
+			case *ssa.ChangeType:
+				walk(x.X, d+1)
+			case *ssa.Call:
+				if g := x.Common().StaticCallee(); g != nil && g.Pkg != nil && g.Pkg.Pkg.Path() == pkgK8sCpuset {
+					for _, a := range x.Common().Args {
+						walk(variadicSingle(a), d+1)
+					}
+				}
+			case *ssa.UnOp:
+				if al, ok := x.X.(*ssa.Alloc); ok && x.Op == token.MUL {
+					for _, s := range reachingStores(al, x) {
+						walk(s.Val, d+1)
+					}
+				} else if x.Op != token.MUL {
+					walk(x.X, d+1)
+				}
+			}
+		}
+		walk(st.Val, 0)
+		for _, ld := range loads {
+			if ld.Block() == nil || ld.Parent() != fn {
+				continue
+			}
+			var ws []ssa.Instruction
+			AllInstrs(fn, func(w ssa.Instruction) {
+				if w != ssa.Instruction(st) && isWriter(w) {
+					ws = append(ws, w)
+				}
+			})
+			for _, w := range ws {
+				w := w
+				p1 := FindPath(PathQuery{Fn: fn, From: ld, Target: func(x ssa.Instruction) bool { return x == w }, Block: func(x ssa.Instruction) bool { return x == ssa.Instruction(st) }})
+				if p1 == nil {
+					continue
+				}
+				p2 := FindPath(PathQuery{Fn: fn, From: w, Target: func(x ssa.Instruction) bool { return x == ssa.Instruction(st) }, Block: func(x ssa.Instruction) bool { return x == ld }})
+				if p2 != nil {
+					found = append(found, lostUpdate{ld, w, st})
+					break
+				}
+			}
+		}
+	})
+	return
+}
